@@ -164,7 +164,7 @@ func (x *Exec) staticCall(i *ssa.Call, callee *ssa.Function) Val {
 		}
 		panic(unsupported("math/bits." + callee.Name()))
 	}
-	if callee.Pkg == x.fn.Pkg || (callee.Origin() != nil && callee.Origin().Pkg == x.fn.Pkg) {
+	if callee.Pkg == x.w.pkg || (callee.Origin() != nil && callee.Origin().Pkg == x.w.pkg) {
 		key := funcKey(callee)
 		if cc := x.w.contracts.Funcs[key]; cc != nil {
 			return x.contractCall(i, callee, cc, vals)
